@@ -164,6 +164,25 @@ def ordered_scan(w: Walker, bs: BestScan, sizes: List[Term], orders: Tuple[Term,
         J = ("phi", li.lid, jname)
         nxt = ("bin", "+", *sorted([("const", 1), J], key=repr))
         first = ("const", jinit[1] + 1) if jinit[0] == "const" and isinstance(jinit[1], int) else None
+        # which position does a round examine?  `while j < n - 1: ... order[j + 1]` looks one ahead of the counter;
+        # `j = 1; while j < n: ... order[j]` looks at the counter itself - told apart by the bound
+        own = False
+        for c in conj(li.cond):
+            if c[0] == "cmp" and c[1] == "<" and any(lin_eq(_sub(lin(c[3]), lin(c[2])), {n: 1, J: -1}) for n in sizes):
+                own = True
+        if own:
+            v = OrderedScan(bs, "while", J, None, jinit if jinit[0] == "const" else None, posname=jname)
+            if jinit[0] != "const":
+                v.problems.append(("start", f"{jname} starts at {show(jinit)}"))
+            for c in conj(li.cond):
+                if c[0] == "cmp" and c[1] == "<" and any(lin_eq(_sub(lin(c[3]), lin(c[2])), {n: 1, J: -1}) for n in sizes):
+                    v.bound.append((c, True))
+                elif c[0] == "cmp" and c[1] in ("<", "<=") and lin(c[3]) is not None and lin(c[2]) is not None \
+                        and J in (_sub(lin(c[3]), lin(c[2])) or {}) and any(n in (_sub(lin(c[3]), lin(c[2])) or {}) for n in sizes):
+                    v.bound.append((c, False))
+                else:
+                    v.exits.append(c)
+            return v
         v = OrderedScan(bs, "while", nxt, J, first, posname=jname)
         if first is None:
             v.problems.append(("start", f"{jname} starts at {show(jinit)}"))
